@@ -71,12 +71,12 @@ CT = {"u8": "unsigned char", "c8": "signed char", "i16": "short", "u16": "unsign
 
 # ---------------------------------------------------------------------------
 # program generators (register pressure: many simultaneously live values, 8-bit values, calls)
-def pressure_c(rng, types=None):
+def pressure_c(rng, types=None, nparams=None):
     """A C function with k values that stay live to the end, mixed widths, calls in between, a loop and
     branches — the shape that makes the allocator spill, coalesce and use aliasing classes."""
     types = types or ["u8", "u8", "c8", "i16", "u16", "i32", "i32", "u32", "i64"]
     k = rng.randrange(4, 13)
-    nparams = rng.randrange(1, 6)
+    nparams = nparams or rng.randrange(1, 6)
     ptys = [rng.choice(types) for _ in range(nparams)]
     vtys = [rng.choice(types) for _ in range(k)]
     ops = ["+", "-", "*", "^", "&", "|"]
